@@ -31,6 +31,8 @@ pub enum Val {
     Map(Vec<(Val, Val)>),
     /// plain object rendering as the given text
     Plain(String),
+    /// an invalid value (carries an error with the given detail)
+    Invalid(String),
 }
 
 #[derive(Debug)]
@@ -80,6 +82,25 @@ impl Val {
                 Value::from_pairs(entries.iter().map(|(k, v)| (k.to_value(), v.to_value())))
             }
             Val::Plain(s) => Value::from_object(PlainObj(s.clone())),
+            Val::Invalid(s) => Value::from(minijinja::Error::new(
+                if s.len() % 2 == 0 {
+                    minijinja::ErrorKind::InvalidOperation
+                } else {
+                    minijinja::ErrorKind::CannotUnpack
+                },
+                s.clone(),
+            )),
+        }
+    }
+
+    pub fn contains_invalid(&self) -> bool {
+        match self {
+            Val::Invalid(_) => true,
+            Val::List(x) | Val::Tuple(x) | Val::SizedIter(x) | Val::UnsizedIter(x) => {
+                x.iter().any(|v| v.contains_invalid())
+            }
+            Val::Map(e) => e.iter().any(|(k, v)| k.contains_invalid() || v.contains_invalid()),
+            _ => false,
         }
     }
 
@@ -98,6 +119,7 @@ impl Val {
             Val::SizedIter(_) | Val::UnsizedIter(_) => "iter",
             Val::Map(_) => "map",
             Val::Plain(_) => "plain",
+            Val::Invalid(_) => "invalid",
         }
     }
 
@@ -121,6 +143,7 @@ impl Val {
             Val::UnsizedIter(_) => "UnsizedIter",
             Val::Map(_) => "Map",
             Val::Plain(_) => "Plain",
+            Val::Invalid(_) => "Invalid",
         }
     }
 
@@ -254,6 +277,7 @@ pub fn scalar_val() -> BoxedStrategy<Val> {
         4 => str_val(),
         1 => prop::collection::vec(prop_oneof![Just(b'a'), Just(b'A'), Just(0u8), Just(255u8), Just(b'1')], 0..3).prop_map(Val::Bytes),
         1 => crate::runner::one_of(&["", "a", "1", "obj"]).prop_map(|s| Val::Plain(s.to_string())),
+        1 => crate::runner::one_of(&["", "a", "bb"]).prop_map(|s| Val::Invalid(s.to_string())),
     ]
     .boxed()
 }
@@ -387,6 +411,7 @@ impl Val {
                 format!("{{{}}}", entries.join(","))
             }
             Val::Plain(s) => format!("p{s:?}"),
+            Val::Invalid(s) => format!("inv{s:?}"),
         }
     }
 
@@ -432,6 +457,23 @@ impl Val {
             }
             other => other.canon(),
         }
+    }
+}
+
+/// true when some map inside the value has a boolean key and a number key that compare
+/// equal (`false` and `0`): which of them a lookup finds depends on the bool/number finding
+pub fn has_bool_number_key_clash(v: &Val) -> bool {
+    match v {
+        Val::List(x) | Val::Tuple(x) | Val::SizedIter(x) | Val::UnsizedIter(x) => {
+            x.iter().any(has_bool_number_key_clash)
+        }
+        Val::Map(e) => {
+            e.iter().any(|(k, v)| has_bool_number_key_clash(k) || has_bool_number_key_clash(v))
+                || e.iter().enumerate().any(|(i, (k1, _))| {
+                    e.iter().take(i).any(|(k2, _)| differ_in_bool_vs_number(k1, k2))
+                })
+        }
+        _ => false,
     }
 }
 
